@@ -129,15 +129,22 @@ def resolve(expr, start={}):
     scopes=[None, dict.fromkeys(start, True)]
 
     def predefine(env, body):
-        '''Names that the straight-line defines of this scope body will bind. They are
-        entered as False (not defined yet): a reference written before the define is
+        '''Names that the defines evaluated in the frame of this scope body will bind. They
+        are entered as False (not defined yet): a reference written before the define is
         neither resolved to this scope nor past it, it stays a dynamic lookup.'''
         for sub in body:
             if isinstance(sub, WList) and len(sub) > 1:
                 if sub[0] == Operator.DEFINE and isinstance(sub[1], Symbol):
                     env.setdefault(sub[1].name, False)
-                elif sub[0] == Operator.DO:
+                    predefine(env, sub[2:])
+                elif sub[0] in [Operator.FN, Operator.LET, Operator.QUOTE, Operator.QUASIQUOTE, Operator.DEFMACRO]:
+                    # evaluated in a frame of their own, or not evaluated at all
+                    continue
+                elif isinstance(sub[0], Operator):
+                    # the operands are evaluated in this frame: a define among them binds here
                     predefine(env, sub[1:])
+                else:
+                    predefine(env, sub)
 
     def resolve_vars(expr):
         if isinstance(expr, WList) and len(expr) > 0:
